@@ -1549,8 +1549,9 @@ func (r *raft) removeNode(id uint64) {
 	r.delProgress(id)
 	r.pendingConf = false
 
-	// do not try to commit or abort transferring if there is no nodes in the cluster.
-	if len(r.prs) == 0 && len(r.learnerPrs) == 0 {
+	// do not try to commit or abort transferring if there is no voter left in the cluster
+	// (learners may remain: maybeCommit has nothing to compute a quorum index from).
+	if len(r.prs) == 0 {
 		return
 	}
 
